@@ -174,10 +174,9 @@ class FloatTol:
     a fourth for the float32 constant.  A pad value (mean of the two middle values of an even count) carries one
     rounding per axis; order statistics move by at most the largest perturbation."""
 
-    def __init__(self, p, block, scale, t, t_used, int_data=False):
-        self.int_data = int_data  # integer pixels: every window sum is exact in binary64
+    def __init__(self, p, block, t, t_used, int_data=False):
+        self.int_data = int_data  # integer pixels with N*max|x| < 2^53: every window sum is exact in binary64
         self.u = Fraction(1, 2 ** p)
-        self.A = Fraction(scale)
         self.N = int(np.prod(block))
         self.P = sum(b // 2 for b in block) + 2
         self.t = None if math.isinf(t) else Fraction(t)
@@ -188,19 +187,45 @@ class FloatTol:
         self.tiny_sd = Fraction(1, 2 ** 537) if p == 53 else Fraction(1, 2 ** 74)
         self.tiny = Fraction(1, 2 ** 1070) if p == 53 else Fraction(1, 2 ** 146)
 
-    def repl_tol(self, kind, real):
-        if kind == "mean":
-            return 2 * (self.N + self.P + 2) * self.u * self.A
-        return Fraction(0) if real else 8 * self.u * self.A
+    @staticmethod
+    def local_maxabs(arr, halves, reach):
+        """per pixel (row-major list of Fractions): the largest |value| among the real pixels within `reach`
+        half-windows of it - every number the decision about that pixel is computed from is a statistic of those"""
+        a = np.abs(np.asarray(arr, dtype=np.float64))
+        out = a.copy()
+        for ax, h in enumerate(halves):
+            r, n = reach * h, a.shape[ax]
+            cur = out.copy()
+            for sft in range(1, min(r, n - 1) + 1):
+                lo = [slice(None)] * a.ndim
+                hi = [slice(None)] * a.ndim
+                lo[ax], hi[ax] = slice(0, n - sft), slice(sft, n)
+                cur[tuple(lo)] = np.maximum(cur[tuple(lo)], out[tuple(hi)])
+                cur[tuple(hi)] = np.maximum(cur[tuple(hi)], out[tuple(lo)])
+            out = cur
+        return [Fraction(float(v)) for v in out.ravel()]
 
-    def margin(self, kind, cell, real):
-        """-> 'out' | 'in' | 'near' from the exact lhs/rhs of the cell"""
+    def repl_tol(self, kind, real, rabs, A):
+        """how far a replaced value may be from the exact replacement.  Mean filter: Lean's `replBound u E rabs`
+        (theorems rounded_window_within_bound / rounded_mean_any_order): E = N + 2 roundings (N + P + 2 when the
+        window holds pad values, themselves rounded means), rabs = the mean magnitude of the values that are
+        averaged (the driver's `rabs`: the same replacement computed on the image of absolute values) - NOT the
+        magnitude of the pixel that is replaced and not the largest value of the image; plus one unit of the
+        smallest subnormal for the division.  Median filter: a selection, exact on real windows; a pad value that
+        is the mean of two middle values carries one rounding per axis (A = largest magnitude within reach)."""
+        if kind == "mean":
+            return 2 * (self.N + (0 if real else self.P) + 2) * self.u * (A if rabs is None else rabs) + self.tiny
+        return Fraction(0) if real else 8 * self.u * A
+
+    def margin(self, kind, cell, real, A):
+        """-> 'out' | 'in' | 'near' from the exact lhs/rhs of the cell; A >= every |value| the decision of this
+        pixel can see (its window; for the median filter the windows of its window's pixels)"""
         if cell["rhs"] is None:
             return "in"  # infinite threshold: inf*s is inf or NaN, the comparison is false
         if self.inf_used:
             return "near"
         lhs, rhs = unrat(cell["lhs"]), unrat(cell["rhs"])
-        u, A, t = self.u, self.A, self.t
+        u, t = self.u, self.t
         if kind == "mean":
             if self.int_data and real and lhs == 0:
                 return "in"  # the window mean is the integer x itself, computed exactly: |x - m| is 0 in floats too
@@ -400,8 +425,10 @@ class C13(Prop):
         r = rng.random()
         if r < 0.16:
             return self.gen_fconst(rng)
-        if r < 0.40:
+        if r < 0.38:
             return self.gen_fgen(rng)
+        if r < 0.48:
+            return self.gen_hdr(rng)
         ndim = rng.choice([1, 2, 2])
         kind = rng.choice(["mean", "median"])
         if rng.random() < 0.5:
@@ -579,6 +606,125 @@ class C13(Prop):
                 "threshold": thr if isinstance(thr, str) and thr == "inf" else hexf(float(thr)), "dtype": dtype,
                 "layout": rng.choice(["C", "C", "F", "strided", "reversed"]), "readonly": rng.random() < 0.3, "gen": feats}
 
+    # ------------------------------------------------------------------ float stream, high dynamic range
+    def gen_hdr(self, rng):
+        """isolated spikes and spike clusters 1e8 .. 1e18 (a fifth: up to 1e150) times the background they sit
+        on, both signs, anywhere (a quarter forced onto the border), 1-D and 2-D, both filters.  The replacement
+        of such a pixel is a statistic of its neighbours and is demanded to the rounding of THEIR magnitude."""
+        ndim = rng.choice([1, 2, 2])
+        kind = rng.choice(["mean", "mean", "median"])
+        block, shape = self.gen_geometry(rng, ndim, [3, 3, 5, 5, 7, 9, 11] if ndim == 1 else [3, 3, 5, 7], 40 if ndim == 1 else 15)
+        dtype = rng.choice(["float64"] * 6 + ["float32"] * 2 + ["int64", "int32"])
+        n = int(np.prod(shape))
+        idx = np.indices(shape)
+        if dtype == "float64":
+            bexp, cap = rng.choice([0, 0, 0, -3, 3, -30, 30, -100, 50, -140]), 150
+        elif dtype == "float32":
+            bexp, cap = rng.choice([0, 0, -3, -10]), 18  # squares of |x| <= 1e18 summed over a window stay finite in binary32
+        else:
+            bexp, cap = 0, (13 if dtype == "int64" else 9)  # window sums stay below 2^53 (int32: below 2^31 per pixel)
+        level = 10.0 ** bexp
+        style = rng.choice(["level", "level", "noise", "lognormal", "ramp", "flat", "zeros"])
+        if dtype in INT_DTYPES:
+            a = np.array([rng.randint(0, 40) for _ in range(n)], dtype=np.float64) if style not in ("flat", "zeros") else \
+                np.full(n, 0.0 if style == "zeros" else float(rng.randint(1, 40)))
+        elif style == "level":
+            a = np.array([level * (1 + 0.1 * rng.gauss(0, 1)) for _ in range(n)])
+        elif style == "noise":
+            a = np.array([level * rng.gauss(0, 1) for _ in range(n)])
+        elif style == "lognormal":
+            a = np.array([level * rng.lognormvariate(0.0, 0.5) for _ in range(n)])
+        elif style == "ramp":
+            a = level * (1 + sum(rng.uniform(-0.05, 0.05) * idx[k] for k in range(ndim)).ravel()
+                         + np.array([rng.gauss(0, 0.02) for _ in range(n)]))
+        elif style == "flat":
+            a = np.full(n, level * rng.choice([1.0, 1 / 3, 0.7, 1.25]))
+        else:
+            a = np.zeros(n)
+        a = np.array(a, dtype=np.float64).reshape(shape)
+        feats = ["hdr", "hdr-bg:" + style]
+        unit = level if style != "zeros" or dtype in INT_DTYPES else level
+
+        def spike():
+            r = rng.random()
+            lo = 8
+            if r < 0.7 or cap <= 18:
+                k = rng.uniform(lo, min(18, cap - bexp))
+                cls = "1e8..1e18"
+            elif r < 0.85:
+                k = rng.uniform(18, min(60, cap - bexp))
+                cls = "1e18..1e60"
+            else:
+                k = rng.uniform(min(60, cap - bexp - 1), cap - bexp - 0.5)
+                cls = "to-1e150"
+            v = rng.choice([-1.0, 1.0]) * unit * 10.0 ** k * (0.5 + 0.5 * rng.random())
+            lim = 10.0 ** cap
+            return max(-lim, min(lim, v)), cls
+
+        def place(border):
+            q = []
+            for s_, b in zip(shape, block):
+                if border or s_ <= 2 * b:
+                    q.append(rng.choice([0, s_ - 1, rng.randrange(s_)]))
+                else:
+                    q.append(rng.randrange(b, s_ - b))
+            return tuple(q)
+
+        signs = set()
+        for _ in range(rng.randint(1, 4)):  # isolated spikes
+            q = place(rng.random() < 0.25)
+            v, cls = spike()
+            a[q] = v
+            signs.add(v < 0)
+            feats.append("hdr-ratio:" + cls)
+        feats.append("hdr:isolated")
+        if rng.random() < 0.4:  # a cluster of adjacent huge values (their windows contain each other)
+            q = place(False)
+            v, cls = spike()
+            ext = [rng.randint(1, 3) for _ in shape]
+            sl = tuple(slice(c, c + e) for c, e in zip(q, ext))
+            sub = a[sl]
+            a[sl] = np.array([v * rng.choice([1.0, 1.0, -1.0, 0.5, 1e-3]) * (0.5 + rng.random()) for _ in range(sub.size)]).reshape(sub.shape)
+            feats += ["hdr:cluster", "hdr-ratio:" + cls]
+            signs.add(v < 0)
+        feats += ["hdr-sign:" + ("both" if len(signs) == 2 else "neg" if True in signs else "pos")]
+        if dtype in INT_DTYPES:
+            a = np.rint(a)
+            if dtype == "int32":
+                a = np.clip(a, -2.0e9, 2.0e9)
+        if dtype == "float32":
+            thr = rng.choice([0.5, 1.0, 1.5, 2.0, 3.0, 3.0, 5.0, 10.0, "0", 2.0 ** 10])
+        else:
+            thr = rng.choice([0.5, 1.0, 1.5, 2.0, 3.0, 3.0, 5.0, 10.0, "0", 1e3, 0.3, 2.9])
+        return {"stream": "fgen", "kind": kind, "shape": shape, "fdata": [hexf(v) for v in a.ravel()], "block": block,
+                "block_int": len(set(block)) == 1 and rng.random() < 0.5,
+                "threshold": hexf(float(thr)), "dtype": dtype,
+                "layout": rng.choice(["C", "C", "F", "strided", "reversed"]), "readonly": rng.random() < 0.3, "gen": sorted(set(feats))}
+
+    def hdr_targeted(self):
+        """deterministic high-dynamic-range inputs: a gently varying signal / image with a glitch of 3e17, 2.5e13, 1e17
+        (and an ordinary spike), the window of the kernel-evaluated witness f64_subtracted_mean_cancels, a zero
+        background, a negative glitch on the border"""
+        base = {"stream": "fgen", "block_int": False, "layout": "C", "dtype": "float64", "readonly": False, "gen": ["targeted-float", "hdr"]}
+        sig = [1.2 + 0.1 * math.sin(0.7 * i) + 0.05 * math.cos(1.3 * i) for i in range(60)]
+        sig[17], sig[30], sig[43] = 3.0e17, 7.0, 2.5e13
+        img = [[0.8 + 0.05 * math.sin(0.9 * y) * math.cos(0.6 * x) + 0.01 * ((y * 7 + x * 3) % 5) for x in range(23)] for y in range(19)]
+        img[9][11], img[5][16] = 1.0e17, 40.0
+        flat = [v for r in img for v in r]
+        for kind in ("mean", "median"):
+            for blk, thr in ((5, 3.0), (7, 2.0)):
+                yield {**base, "kind": kind, "shape": [60], "fdata": [hexf(v) for v in sig], "block": [blk], "threshold": hexf(thr)}
+            for blk, thr in (([3, 5], 3.0), ([3, 3], 1.0)):
+                yield {**base, "kind": kind, "shape": [19, 23], "fdata": [hexf(v) for v in flat], "block": blk, "threshold": hexf(thr)}
+            yield {**base, "kind": kind, "shape": [9], "fdata": [hexf(v) for v in (1.0, 1.25, 1.0, 1.5, 3.0e17, 1.25, 1.0, 1.5, 1.0)],
+                   "block": [5], "threshold": hexf(3.0), "gen": ["targeted-float", "hdr", "witness"]}
+            z = [0.0] * 49
+            z[24] = -1e150
+            yield {**base, "kind": kind, "shape": [7, 7], "fdata": [hexf(v) for v in z], "block": [3, 3], "threshold": hexf(1.0)}
+            e = [1e-100 * (1 + 0.01 * ((5 * i) % 7)) for i in range(25)]
+            e[0], e[12] = -4e-83, 6e-88
+            yield {**base, "kind": kind, "shape": [25], "fdata": [hexf(v) for v in e], "block": [5], "threshold": hexf(2.0)}
+
     def float_targeted(self):
         base = {"stream": "fconst", "block_int": False, "layout": "C", "dtype": "float64", "readonly": False, "gen": ["targeted-float"]}
         z, one, inf = hexf(0.0), hexf(1.0), "inf"
@@ -644,6 +790,7 @@ class C13(Prop):
                        "block": [7], "threshold": thr}
                 yield {**base, "kind": kind, "shape": [6, 6], "data": [3] * 36, "block": [3, 3], "threshold": thr, "block_int": True}
         yield from self.float_targeted()
+        yield from self.hdr_targeted()
 
     # ------------------------------------------------------------------ evaluation
     def evaluate(self, case, ctx):
@@ -678,7 +825,8 @@ class C13(Prop):
         is_int = np.dtype(dtname).kind in "iu"
         # integer image: np.pad rounds the pad values (half to even) to the dtype; the mechanism model does the same
         req = dict(kind=kind, shape=shape, data=[core.rat(v) for v in vals], block=block,
-                   threshold=None if math.isinf(t) else core.rat(t), pad="rint" if is_int else "exact")
+                   threshold=None if math.isinf(t) else core.rat(t), pad="rint" if is_int else "exact",
+                   rabs=bool(fmode and kind == "mean"))
         if sparse:
             changed = []
             if "raises" not in impl and impl["shape"] == shape:
@@ -698,7 +846,13 @@ class C13(Prop):
         # the format pewlib computes in: float32 stays float32, integers are averaged in float64
         p_bits, emin = FLOAT_DTYPES.get(dtname, FLOAT_DTYPES["float64"])
         t_used = float(np.float32(t)) if dtname == "float32" else t  # a Python float times a float32 array is float32
-        ftol = FloatTol(p_bits, block, max(abs(float(v)) for v in vals), t, t_used, is_int) if fmode else None
+        ftol = a_loc = None
+        if fmode:
+            maxabs = max(abs(v) for v in vals)
+            # integer pixels: window sums are exact only while they stay below 2^53
+            ftol = FloatTol(p_bits, block, t, t_used, is_int and int(np.prod(block)) * maxabs < 2 ** 53)
+            grid = np.array([float(v) for v in vals], dtype=np.float64).reshape(shape)
+            a_loc = FloatTol.local_maxabs(grid, halves, 2 if kind == "median" else 1)
         xs = [float(v) for v in np.asarray(x, dtype=np.float64).ravel()]  # the input as floats (keeps the sign of a zero)
 
         def real_window(p, reach=1):  # no padded value within `reach` half-windows of pixel p
@@ -717,13 +871,14 @@ class C13(Prop):
                 a, b = float(lhs), float(rhs)
             return abs(a - b) <= REL * max(a, b) + abs_tol * (1.0 + (0.0 if math.isinf(t) else t))
 
-        def ok_cell(v, cell, p):
+        def ok_cell(v, cell, p, k):
             xv, rv = float(unrat(cell["x"])), unrat(cell["repl"])
             is_x = v == xv
             if fmode:
                 real = real_window(p, 2 if kind == "median" else 1)
-                is_r = abs(Fraction(v) - rv) <= ftol.repl_tol(kind, real) if math.isfinite(v) else False
-                m = ftol.margin(kind, cell, real)
+                ra = None if cell.get("rabs") is None else unrat(cell["rabs"])
+                is_r = abs(Fraction(v) - rv) <= ftol.repl_tol(kind, real, ra, a_loc[k]) if math.isfinite(v) else False
+                m = ftol.margin(kind, cell, real, a_loc[k])
                 if m == "near":
                     return is_x or is_r, True
                 return (is_r if m == "out" else is_x), False
@@ -803,7 +958,7 @@ class C13(Prop):
                 if cmp_model:  # the mechanism at every pixel, also of a large image
                     for k in range(n):
                         pk = tuple(int(i) for i in idx[k])
-                        ok, nr = ok_cell(out[k], rep["model"][k], pk)
+                        ok, nr = ok_cell(out[k], rep["model"][k], pk, k)
                         nears += nr
                         if not ok:
                             bad_model.append(k)
@@ -817,7 +972,7 @@ class C13(Prop):
                     s = spec_at[k]
                     if s["kind"] == "exact":
                         n_int += 1
-                        ok, nr = ok_cell(out[k], s, p)
+                        ok, nr = ok_cell(out[k], s, p, k)
                         n_det += not nr
                         if not cmp_model:  # (only a large image can be without the mechanism)
                             nears += nr
@@ -827,7 +982,8 @@ class C13(Prop):
                         xv = float(unrat(s["x"]))
                         lo, hi = unrat(s["lo"]), unrat(s["hi"])
                         if fmode:
-                            tol = ftol.repl_tol(kind, False) if kind == "mean" else Fraction(0)
+                            # a replaced border value is a mean of values within [lo, hi]: rounding relative to that range
+                            tol = ftol.repl_tol(kind, False, max(abs(lo), abs(hi)), None) if kind == "mean" else Fraction(0)
                             ok = out[k] == xv or (math.isfinite(out[k]) and lo - tol <= Fraction(out[k]) <= hi + tol)
                         else:
                             lo, hi = float(lo), float(hi)
